@@ -75,7 +75,7 @@ Section ScopeVisit.
   Proof.
     intros tc fuel u ev r H pre k rq post E.
     destruct (every_request_checked _ _ _ _ _ _ _ _ _ _ H) as (Hcov & _).
-    destruct (Hcov _ _ _ _ E) as (pre' & w & _ & Hc & Hw).
+    destruct (Hcov _ _ _ _ E) as (pre' & w & rb & _ & _ & Hc & Hw).
     rewrite consult_of_spec in Hc. destruct w.
     - right. destruct (Hw eq_refl). auto.
     - left. exact Hc.
